@@ -28,6 +28,9 @@ func runC04(c *Ctx) {
 	c04Alias(c)
 	c04Pipelines(c)
 	c04MemoKey(c)
+	domainPatternsIndependent(c, "DEDUP")
+	c04CacheAlias(c)
+	c04NegateWhole(c)
 }
 
 // optimizerMethods returns the Optimize methods of every RulesOptimizer
